@@ -1,6 +1,7 @@
 import ObiVerif.Driver.C20
 import ObiVerif.Driver.C04
 import ObiVerif.Driver.C03
+import ObiVerif.Driver.C07
 
 partial def loop (h : IO.FS.Stream) (out : IO.FS.Stream) (f : String → String) : IO Unit := do
   let line ← h.getLine
@@ -13,6 +14,7 @@ def dispatch : String → Option (String → String)
   | "C20" => some ObiVerif.Driver.C20.run
   | "C04" => some ObiVerif.Driver.C04.run
   | "C03" => some ObiVerif.Driver.C03.run
+  | "C07" => some ObiVerif.Driver.C07.run
   | _ => none
 
 def main (args : List String) : IO UInt32 := do
